@@ -62,6 +62,7 @@ class REPolicy(C.Policy):
 
     def for_class(self, mod, cls):
         p = REPolicy(self.repo, self.hier, (mod, cls), self.depth, self.inject_cancel)
+        p.total_calls = self.total_calls
         p._summaries = self._summaries
         p._stack = self._stack
         p.opaque = self.opaque
@@ -101,7 +102,7 @@ class REPolicy(C.Policy):
             kinds = set()
             reach = g.reachable([g.entry])
             for p, label in g.pred[g.raise_exit]:
-                if p in reach and isinstance(label, tuple) and label[0] == "exc":
+                if p in reach and isinstance(label, tuple) and label[0] in ("exc", "reraise"):
                     kinds.add(label[1])
                 elif p in reach and label == "F":
                     kinds.add("AssertionError")
@@ -115,6 +116,8 @@ class REPolicy(C.Policy):
         if node is None:
             return out
         awaited_calls = set()
+        if isinstance(node, ast.Assign) and any(A.chain(t) == "self._state" for t in node.targets):
+            out.add("TransitionError")  # the checking setter refuses transitions outside the table
         for n in A.walk_local(node):
             if isinstance(n, ast.Await):
                 if self.inject_cancel:
